@@ -46,6 +46,10 @@ impl Edits {
     fn insert(&mut self, at: usize, text: impl Into<String>) {
         self.replace(at..at, text);
     }
+    fn insert_last(&mut self, at: usize, text: impl Into<String>) {
+        let seq = usize::MAX / 2 + self.v.len();
+        self.v.push(Edit { start: at, end: at, text: text.into(), seq });
+    }
     /// Apply to `src[range]`.
     fn apply(mut self, src: &str, range: Range<usize>) -> Result<String, String> {
         self.v.sort_by_key(|e| (e.start, if e.end == e.start { 0 } else { 1 }, e.seq));
@@ -962,7 +966,8 @@ fn handle_fn(
                     ),
                 );
                 edits.insert(l.body.start + 1, format!(" {} __i{} += 1; ", bind, n));
-                edits.insert(l.whole.end, " }");
+                // the wrapper's closing brace must come after any `after_loop` text at the same position
+                edits.insert_last(l.whole.end, " }");
                 log.push(format!("R6:for->while loop {}", n));
             }
             "match_str" => {
